@@ -268,7 +268,7 @@ def run(prog: Program, rep: Report, tier: str = "quick") -> None:
 
     game.add_instances(rep, c01.closed_form_job, [(i, tier, "R3.6") for i in range(n)], "R3.6", 28 * n, counterpart_only=True)
     rep.arbitrate({"R3.2", "R3.3"}, "R3.5", "scores are ranks negated; omitted ranks are the positions")
-    rep.arbitrate({"R3.4"}, "R3.6", "ties are exactly the equal values: the stored terms are the closed forms under every weak ordering of the values")
+    rep.arbitrate({"R3.4"}, "R3.6", "ties are exactly the equal values: the stored terms are the closed forms under every weak ordering of the values", also=("R3.5",))
     rep.supersede({"R3.2", "R3.3"}, "R3.5", "scores are ranks negated; omitted ranks are the positions")
     rep.supersede({"R3.4"}, "R3.6", "ties are exactly the equal values")
     rep.floor("R3.1", 8 * n)
